@@ -56,10 +56,19 @@ _MIN_QUICK = {'delta.sum|d|==TV': 150000, 'delta.|sum d|==|end-start|': 150000, 
               'inverse(cut_off>0)==a_ref*(S_all/S_kept)^b': 4000, 'amp.scales-linearly': 2000,
               'ncyc.joint-scaling-invariant': 2500, 'combined(x,x)==2^b*amp(x)': 5000, 'gm(x,x)==amp(x)': 5000,
               'gm(x,y)==sqrt(amp(x)*amp(y))': 1800, 'array-b column==scalar-b': 900}
-# thorough: the enumerations grow 5x, the random part 20x
-_THOROUGH_FACTOR = {'delta.shift-invariant': 5, 'pseudo.shift-invariant': 5, 'int-input==float-input': 5}
-MIN_EVALS = {'quick': _MIN_QUICK,
-             'thorough': {k: v * _THOROUGH_FACTOR.get(k, 6 if k.startswith(('delta', 'pseudo')) else 12) for k, v in _MIN_QUICK.items()}}
+# thorough: the enumerations grow 5x, the random part 20x (about half of what a run reaches)
+_MIN_THOROUGH = {'delta.sum|d|==TV': 900000, 'delta.|sum d|==|end-start|': 900000, 'delta.zero-off-peaks': 900000,
+                 'delta.length': 900000, 'pseudo.length': 900000, 'pseudo.zero-off-peaks': 900000,
+                 'pseudo.sum==TV/2+offset/2*sign(last move)': 900000, 'delta.shift-invariant': 300000,
+                 'pseudo.shift-invariant': 300000, 'int-input==float-input': 500000,
+                 'ncyc==reference': 350000, 'ncyc.nondecreasing': 330000, 'ncyc.length': 330000,
+                 'ncyc.accepts-sequences': 36000, 'amp==reference': 880000, 'amp.nondecreasing': 730000,
+                 'amp.length': 730000, 'gm==sqrt(amp0*amp1)': 180000, 'gm.length': 140000, 'combined==reference': 120000,
+                 'combined.length': 120000, 'combined.nondecreasing': 120000, 'inverse(cut_off=0)': 98000,
+                 'inverse(cut_off>0)==a_ref*(S_all/S_kept)^b': 69000, 'amp.scales-linearly': 40000,
+                 'ncyc.joint-scaling-invariant': 50000, 'combined(x,x)==2^b*amp(x)': 72000, 'gm(x,x)==amp(x)': 82000,
+                 'gm(x,y)==sqrt(amp(x)*amp(y))': 39000, 'array-b column==scalar-b': 18000}
+MIN_EVALS = {'quick': _MIN_QUICK, 'thorough': _MIN_THOROUGH}
 CTX = None
 
 DELTA = 'determine_peaks_only_delta_series'
